@@ -24,11 +24,12 @@ from __future__ import annotations
 import itertools
 import os
 import posixpath
+import re
 import shutil
 import sys
 import traceback
 
-from engines.common import REPO, Acc, HarnessError, fresh_dir, git, pmap, replay_generic, rmtree, rp, scratch_root, split
+from engines.common import REPO, Acc, HarnessError, dec, fresh_dir, git, pmap, rmtree, rp, scratch_root, split
 from engines.refmodels import gittree, indexfile
 from engines.refmodels import worktree as wm
 
@@ -52,6 +53,7 @@ KINDS = {
     "Ld": (LNK, b"d"),  # symlink to the name 'd' (a directory when the tree has d/...)
 }
 KINDS1 = ["E", "X", "P", "Q", "B", "PX", "L", "La"]  # phase (1)
+Q3 = ["X", "L"]  # kinds of the three-entry trees of the quick tier
 
 
 def tree_of(spec):
@@ -272,22 +274,25 @@ def link_class(wd, index, p, target):
     return "to-tracked-file" if t in index else "to-untracked-file"
 
 
-def wd_kind(wd, index, p):
+def wd_kind(wd, index, p, fine=False):
+    """Coarse kind of what the work tree has at p (a trailing slash asks about a directory)."""
     if p.endswith(b"/"):
-        pre = p
-        kinds = sorted(set({"f": "file", "l": "symlink", "d": "emptydir", "?": "special"}[e[0]] for q, e in wd.items() if q.startswith(pre)))
-        if not kinds and wd.get(p[:-1]) == ("d",):
-            kinds = ["empty"]
-        return "dir[%s]" % "+".join(kinds) if kinds else "absent"
+        e = wm.wd_lookup(wd, p[:-1])
+        if isinstance(e, tuple) and e[0] == "l":
+            return "symlink-listed-as-directory"
+        if e != "dir":
+            return "absent" if e is None else "file-listed-as-directory"
+        kinds = sorted(set({"f": "file", "l": "symlink", "d": "emptydir", "?": "special"}[x[0]] for q, x in wd.items() if q.startswith(p)))
+        return "dir[%s]" % "+".join(kinds or ["empty"])
     e = wm.wd_lookup(wd, p)
     if e is None:
         return "absent"
     if e == "dir":
         return "dir"
     if e[0] == "l":
-        return "symlink(%s)" % link_class(wd, index, p, e[1])
+        return "symlink(%s)" % link_class(wd, index, p, e[1]) if fine else "symlink"
     if e[0] == "f":
-        return "exec" if e[2] else "file"
+        return ("exec" if e[2] else "file") if fine else "file"
     return "special"
 
 
@@ -309,17 +314,42 @@ def diff_class(old, new):
 
 
 def path_class(component, head, index, wd, p):
+    """The class of path p *with respect to the relation the status component reports*: for untracked
+    paths (tracked?, kind in the directory); for unstaged paths how index and directory differ; for
+    staged paths how HEAD and index differ.  A non-plain name adds ',name=<class>' (collapsed by run()
+    when the same class also fails for plain names, i.e. when the failure is not name-specific)."""
     q = p.rstrip(b"/")
-    parts = ["head=%s" % tree_kind(head, q), "index=%s" % tree_kind(index, q), "wd=%s" % wd_kind(wd, index, p)]
-    if component == "unstaged" and q in index:
-        e = wm.wd_lookup(wd, q)
-        parts.append("diff=%s" % diff_class(index[q], wm.entry_of(e) if e not in (None, "dir") else None))
-    if component.startswith("staged"):
-        parts.append("diff=%s" % diff_class(head.get(q), index.get(q)))
+    if component == "untracked":
+        cls = ("tracked-" if q in index else "") + wd_kind(wd, index, p)
+    elif component == "unstaged":
+        if q not in index:
+            cls = "not-in-index(%s)" % wd_kind(wd, index, p)
+        else:
+            e = wm.wd_lookup(wd, q)
+            d = diff_class(index[q], wm.entry_of(e) if e not in (None, "dir") else None)
+            if d == "deleted":
+                d = "deleted(%s)" % ("directory-in-its-place" if e == "dir" else "gone" if all(wm.wd_lookup(wd, x) in (None, "dir") for x in wm.prefixes(q)) else "parent-is-not-a-directory")
+            elif d == "none":
+                d = "unchanged(%s)" % wd_kind(wd, index, q)
+            cls = d
+    else:
+        cls = diff_class(head.get(q), index.get(q))
+        if cls == "none":
+            cls = "unchanged" if q in index else "in-neither"
     nc = name_class(p)
-    if nc != "plain":
-        parts.append("name=%s" % nc)
-    return ",".join(parts)
+    return cls if nc == "plain" else "%s,name=%s" % (cls, nc)
+
+
+def collapse_name_suffixes(acc):
+    """status:...:<class>,name=<n> is merged into status:...:<class> when the latter occurred too."""
+    for key in sorted(acc.viol):
+        if ",name=" not in key:
+            continue
+        base = key[: key.index(",name=")]
+        if base in acc.viol:
+            c, cases = acc.viol.pop(key)
+            acc.viol[base][0] += c
+            acc.viol[base][1].extend(cases[: max(0, acc.MAX_PER_KEY - len(acc.viol[base][1]))])
 
 
 # --------------------------------------------------------------------------- the judge
@@ -341,7 +371,7 @@ def dul_status(repo_or_path, mode):
     )
 
 
-def judge(acc, box, head, where, desc, rpl, use_git=True, git_modes=("normal", "all"), expect_clean=False):
+def judge(acc, box, head, where, desc, rpl, use_git=True, git_modes=("normal", "all"), plan="full"):
     """Evaluate the state of box: index readable and conflict-free, Index.commit == independent tree id,
     porcelain.status exact in both untracked modes (live Repo object and fresh open agree), C git agrees.
     `where` is the key prefix naming the operation that led here.  Returns (index map, clean flags, wd)
@@ -378,34 +408,42 @@ def judge(acc, box, head, where, desc, rpl, use_git=True, git_modes=("normal", "
     for mode in ("normal", "all"):
         recs = wm.porcelain(head, idx, wd, mode)
         exp[mode] = (recs, wm.status_from_porcelain(recs))
-    if expect_clean and (exp["all"][0] or exp["normal"][0]):
-        pass  # the caller has already reported why the state is not the expected one
     acc.outcome("state:%s" % ("clean" if not exp["all"][0] else "+".join(sorted(set(xy.replace(" ", "_") for xy, _ in exp["all"][0])))))
+    # plan: which of the four observations (untracked mode x live/fresh Repo) are made
+    calls = {"full": (("normal", "live"), ("normal", "fresh"), ("all", "live"), ("all", "fresh")),
+             "lean": (("normal", "live"), ("all", "fresh")), "min": (("normal", "live"),)}[plan]
+    obs = {}
+    for mode, how in calls:
+        obs[(mode, how)] = dul_status(r if how == "live" else box.root, mode)
+        acc.count("status_calls")
     got = {}
     for mode in ("normal", "all"):
-        live = dul_status(r, mode)
-        fresh = dul_status(box.root, mode)
-        acc.count("status_calls", 2)
-        if live != fresh:
-            acc.violation("status:live-repo-object-and-fresh-open-disagree", "%s (untracked_files=%s): live %r, fresh %r" % (desc, mode, live, fresh), rpl)
-        got[mode] = live
-        if live[0] == "raised":
-            acc.violation("status:raises:%s" % live[1], "%s (untracked_files=%s): %s" % (desc, mode, live[2]), rpl)
+        o = [obs[(mode, how)] for how in ("live", "fresh") if (mode, how) in obs]
+        if not o:
+            continue
+        if len(o) == 2 and o[0] != o[1]:
+            acc.violation("status:live-repo-object-and-fresh-open-disagree", "%s (untracked_files=%s): live %r, fresh %r" % (desc, mode, o[0], o[1]), rpl)
+        got[mode] = o[0]
+        if o[0][0] == "raised":
+            acc.violation("status:raises:%s" % o[0][1], "%s (untracked_files=%s): %s" % (desc, mode, o[0][2]), rpl)
+    judged_tracked = False
     for mode in ("normal", "all"):
-        if got[mode][0] != "ok":
+        if mode not in got or got[mode][0] != "ok":
             continue
         w_staged, w_unstaged, w_untracked = exp[mode][1]
         _, g_staged, g_unstaged, g_untracked = got[mode]
-        if mode == "normal" or got["normal"][0] != "ok":
+        if not judged_tracked:
+            judged_tracked = (g_staged, g_unstaged)
             for k in ("add", "delete", "modify"):
                 _cmp_paths(acc, "staged." + k, w_staged[k], g_staged.get(k, []), head, idx, wd, desc, rpl)
             extra = sorted(set(g_staged) - {"add", "delete", "modify"})
             if extra:
                 acc.violation("status:staged:unknown-change-types", "%s: %r" % (desc, extra), rpl)
             _cmp_paths(acc, "unstaged", w_unstaged, g_unstaged, head, idx, wd, desc, rpl)
-        elif (g_staged, g_unstaged) != (got["normal"][1], got["normal"][2]):
-            acc.violation("status:staged-or-unstaged-depends-on-untracked-mode", "%s: normal %r all %r" % (desc, got["normal"][1:3], got[mode][1:3]), rpl)
-        _cmp_paths(acc, "untracked(%s)" % mode, w_untracked, g_untracked, head, idx, wd, desc, rpl)
+        elif (g_staged, g_unstaged) != judged_tracked:
+            acc.violation("status:staged-or-unstaged-differ-between-two-calls-on-one-state", "%s: first %r then (%s) %r" % (desc, judged_tracked, mode, (g_staged, g_unstaged)), rpl)
+        optional = wm.untracked_normal_hidden(idx, wd) if mode == "normal" else ()
+        _cmp_paths(acc, "untracked(%s)" % mode, w_untracked, g_untracked, head, idx, wd, desc, rpl, optional)
     # C git on the same directory
     if use_git:
         for mode in git_modes:
@@ -433,8 +471,8 @@ def judge(acc, box, head, where, desc, rpl, use_git=True, git_modes=("normal", "
     return idx, clean, wd
 
 
-def _cmp_paths(acc, component, want, got, head, idx, wd, desc, rpl):
-    want_s, got_s = set(want), set(got)
+def _cmp_paths(acc, component, want, got, head, idx, wd, desc, rpl, optional=()):
+    want_s, got_s = set(want), set(got) - set(optional)
     comp = component.split(".")[0].split("(")[0]
     for p in sorted(want_s - got_s):
         acc.violation("status:%s:missing:%s" % (component, path_class(comp, head, idx, wd, p)),
@@ -442,7 +480,7 @@ def _cmp_paths(acc, component, want, got, head, idx, wd, desc, rpl):
     for p in sorted(got_s - want_s):
         acc.violation("status:%s:spurious:%s" % (component, path_class(comp, head, idx, wd, p)),
                       "%s: %s lists %s; expected %s" % (desc, component, _pn(p), [_pn(x) for x in want]), rpl)
-    if want_s == got_s and sorted(got) != sorted(want):
+    if want_s == got_s and len(set(got)) != len(got):
         acc.violation("status:%s:duplicate-paths" % component, "%s: %r" % (desc, [_pn(x) for x in got]), rpl)
 
 
@@ -573,10 +611,10 @@ def case_roundtrip(acc, spec, method, use_git):
             return
         ok = head_tree_ok(acc, where, box, cid, desc, rpl)
         ok = check_materialised(acc, where, box, None, tree, desc, rpl) and ok
-        judge(acc, box, tree, where, desc + " (before staging)", rpl, use_git=False)
+        judge(acc, box, tree, where, desc + " (before staging)", rpl, use_git=False, plan="lean")
         if ok:
             ok = stage_everything(acc, where, box, tid, desc, rpl)
-            judge(acc, box, tree, where + "+add(.)", desc + " (after add .)", rpl, use_git=use_git, git_modes=("normal",))
+            judge(acc, box, tree, where + "+add(.)", desc + " (after add .)", rpl, use_git=use_git, git_modes=("normal",), plan="min")
         acc.outcome("roundtrip:%s" % ("ok" if ok else "failed"))
     finally:
         box.close()
@@ -621,10 +659,10 @@ def case_switch(acc, spec_a, spec_b, method, use_git):
         else:
             ok = head_tree_ok(acc, where, box, cid_b, desc, rpl)
         ok = check_materialised(acc, where, box, tree_a, tree_b, desc, rpl) and ok
-        judge(acc, box, tree_b, where, desc + " (before staging)", rpl, use_git=False)
+        judge(acc, box, tree_b, where, desc + " (before staging)", rpl, use_git=False, plan="lean")
         if ok:
             ok = stage_everything(acc, where, box, tid_b, desc, rpl)
-            judge(acc, box, tree_b, where + "+add(.)", desc + " (after add .)", rpl, use_git=use_git, git_modes=("normal",))
+            judge(acc, box, tree_b, where + "+add(.)", desc + " (after add .)", rpl, use_git=use_git, git_modes=("normal",), plan="min")
         trans = sorted(set("%s->%s" % (tree_kind(tree_a, p), tree_kind(tree_b, p)) for p in _all_nodes(tree_a, tree_b)))
         for t in trans:
             acc.outcome("transition:" + t)
@@ -666,7 +704,7 @@ class MState:
 def link_targets(p, paths):
     t = [b"nowhere"]
     if b"/" not in p:
-        other = [q for q in paths if q != p]
+        other = [q for q in paths if q != p and not q.startswith(p + b"/")]  # p -> p/... would be a loop
         if other:
             t.append(other[0])
     return t
@@ -927,7 +965,7 @@ def run_edits(acc, sid, ops, use_git, judge_last=True, expect_key=None):
                 cls, p = index_diff_class(new.index, idx)
                 if not is_index_op:
                     raise HarnessError("a harness edit changed the index?! %s" % desc)
-                pk = "wd=%s,index=%s,head=%s" % (wd_kind(st.wd, st.index, op[1]) if len(op) > 1 else "*", tree_kind(st.index, op[1]) if len(op) > 1 else "*", tree_kind(st.head, op[1]) if len(op) > 1 else "*")
+                pk = "path-is-%s" % wd_kind(st.wd, st.index, op[1]) if len(op) > 1 else "all-paths"
                 nc = name_class(p)
                 acc.violation("%s:index-differs-from-model:%s:%s%s" % (where, cls, pk, "" if nc == "plain" else ",name=" + nc),
                               "%s: index entry %s is %r, expected %r (index now %s)" % (desc, _pn(p), idx.get(p), new.index.get(p), [_pn(x) for x in sorted(idx)]), rpl)
@@ -1044,8 +1082,12 @@ SLOT_N = ["-", "X", "P", "Q", "PX", "L", "E"]
 def universes(thorough):
     """Lists of trees; all ordered pairs inside each list are explored."""
     us = []
-    u1 = [tuple(sorted(a + d)) for a in SLOT_A for d in SLOT_D]
-    us.append(("a x d", u1))
+    if thorough:
+        sa, sd = SLOT_A, SLOT_D
+    else:
+        sa = [s for s in SLOT_A if not s or s[0][1] in ("X", "P", "Q", "PX", "L")]
+        sd = [s for s in SLOT_D if s != ((b"d/x", "Y"),) and len(s) < 2] + [((b"d/x", "X"), (b"d/y", "P"))]
+    us.append(("a x d", [tuple(sorted(a + d)) for a in sa for d in sd]))
     for n in SPECIAL:
         us.append(("name %s" % _pn(n), [() if k == "-" else ((n, k),) for k in SLOT_N]))
     if thorough:
@@ -1076,7 +1118,7 @@ def run(ctx):
     # (1)
     trees = trees_phase1(2 if q else 3, kinds3=None)
     if q:
-        trees += [t for t in trees_phase1(3, kinds3=["X", "PX", "L"]) if len(t) == 3]
+        trees += [t for t in trees_phase1(3, kinds3=Q3) if len(t) == 3]
     us = universes(not q)
     extra = sorted(set(t for _, u in us[: 1 + len(SPECIAL)] for t in u) - set(trees))
     trees += extra
@@ -1089,14 +1131,18 @@ def run(ctx):
             for b in u:
                 pairs.add((a, b))
     pairs = sorted(pairs)
-    sw = [(a, b, m) for a, b in pairs for m in SWITCHES if not (m == "porcelain.reset-hard" and len(a) + len(b) > 4 and not q and False)]
+    sw = [(a, b, m) for a, b in pairs for m in SWITCHES]
     tasks += [("switch", part, True) for part in split(ctx.order(sw), J * 2)]
     tasks = ctx.order(tasks)
     for acc in pmap(work, tasks, jobs=ctx.jobs):
         ctx.acc.merge(acc)
+    t12 = ctx.elapsed()
     # (3)
     stats = bfs(ctx, 2 if q else 3, True)
+    ctx.acc.note("wall_s_phases_1_2", round(t12, 1))
+    ctx.acc.note("wall_s_phase_3", round(ctx.elapsed() - t12, 1))
 
+    collapse_name_suffixes(ctx.acc)
     n = ctx.acc.n
     ctx.level = "model_checking"
     ctx.coverage.update(
@@ -1108,7 +1154,7 @@ def run(ctx):
         exhaustive=True,
         bounds={
             "roundtrip_trees": len(trees), "roundtrip_methods": list(CHECKOUTS),
-            "roundtrip_max_entries": 2 if q else 3, "roundtrip_three_entry_kinds": ["X", "PX", "L"] if q else KINDS1,
+            "roundtrip_max_entries": 2 if q else 3, "roundtrip_three_entry_kinds": Q3 if q else KINDS1,
             "switch_universes": [(name, len(u)) for name, u in us], "switch_ordered_pairs": len(pairs), "switch_methods": list(SWITCHES),
             "edit_depth": stats["depth_completed"], "edit_starts": sorted(STARTS), "edit_states_per_level": stats["states_per_level"],
         },
@@ -1118,7 +1164,7 @@ def run(ctx):
             "porcelain.add(path), WorkTree.unstage, porcelain.remove(cached)} on two paths each + porcelain.add(.), states merged on (index, directory, "
             "per-entry stat-clean flag), every transition re-executed from a fresh checkout; porcelain.status (normal and all, live and fresh Repo) judged in every state "
             "against the three-dict model, the model checked against C git status/write-tree in every judged end state."
-            % (2 if q else 3, [_pn(x) for x in NAMES], KINDS1, " + all 3-entry trees over kinds ['X','PX','L']" if q else "", list(CHECKOUTS),
+            % (2 if q else 3, [_pn(x) for x in NAMES], KINDS1, " + all 3-entry trees over kinds %r" % Q3 if q else "", list(CHECKOUTS),
                [(name, len(u)) for name, u in us], list(SWITCHES), stats["depth_completed"], len(STARTS))
         ),
         git_status_calls=n.get("git_status_calls", 0),
@@ -1136,5 +1182,32 @@ def run(ctx):
 
 
 def replay(ctx, obj):
+    """replay_generic, except that a recorded key K is also reproduced by K + ',name=<class>' (run() merges
+    the name-specific variant into K when the failure is not name-specific)."""
     isolate()
-    return replay_generic(sys.modules[__name__], ctx, obj)
+    key = obj.get("key")
+    mod = sys.modules[__name__]
+    reproduced = 0
+    for case in obj.get("cases", []):
+        r = case.get("replay")
+        if not r:
+            continue
+        obs = []
+        for _ in range(2):
+            acc = Acc()
+            getattr(mod, r["fn"])(acc, *dec(r["args"]))
+            obs.append(sorted((k, v[1][0]["summary"]) for k, v in acc.viol.items()))
+        strip = lambda o: [(k, re.sub(r"/dev/shm/[^'\" ]*", "<scratch>", t)) for k, t in o]  # noqa: E731
+        if strip(obs[0]) != strip(obs[1]):
+            print("HARNESS-ERROR: replay is not deterministic: %r vs %r" % (obs[0], obs[1]))
+            return 2
+        hit = [t for k, t in obs[0] if k == key or k.startswith(key + ",name=")]
+        if hit:
+            reproduced += 1
+            print("REPRODUCED key=%s: %s" % (key, hit[0][:500]))
+        else:
+            print("NOT-REPRODUCED key=%s (observed %r)" % (key, [k for k, _ in obs[0]]))
+    if reproduced:
+        print("VIOLATION property=%s replay=%s" % (ctx.prop, "(replayed)"))
+        return 1
+    return 0
